@@ -58,6 +58,8 @@ def run_batch(sim_name, prop, tier, seed, stratum, indices, hash_seed="0", focus
     import warnings
     warnings.simplefilter("ignore")
     sim = get_sim(sim_name)
+    if hasattr(sim, "pristine_handler"):
+        core.start_oracle(sim_name, sim.pristine_handler)     # before any run of this process
     known = core.load_known()
     stats = Counter()
     digests = []
@@ -107,6 +109,11 @@ def run_batch(sim_name, prop, tier, seed, stratum, indices, hash_seed="0", focus
         if len(samples) < 2 and len(res.ops) >= 2:
             samples.append({"stratum": stratum, "run_index": idx, "config": cfg,
                             "ops": res.ops[:12], "events": res.events[:12]})
+    oracle = core.get_oracle(sim_name)
+    if oracle is not None:
+        stats["pristine_oracle_requests"] += 0
+        if focus is None:
+            core.close_oracles()
     return {
         "stratum": stratum, "first": indices[0] if indices else -1,
         "stats": dict(stats), "digests": digests,
@@ -129,6 +136,9 @@ def check(prop, tier, seed):
     t0 = time.time()
     sim_name = PROP_SIM[prop]
     sim = get_sim(sim_name)
+    if hasattr(sim, "pristine_handler"):
+        # for the reporting phase (minimisation re-executes histories in this process)
+        core.start_oracle(sim_name, sim.pristine_handler)
     plan = sim.plan(prop, tier)          # list of (stratum, n_runs)
     if core.SCALE != 1:
         plan = [(s, max(1, int(n * core.SCALE))) for s, n in plan]
@@ -144,7 +154,10 @@ def check(prop, tier, seed):
             for ch in _chunks(n, sim.batch_size(stratum)):
                 jobs.append((sim_name, prop, tier, seed, stratum, ch))
         results = core.run_forked(jobs, workers, run_batch)
-    return _finish(sim, sim_name, prop, tier, seed, plan, results, t0)
+    try:
+        return _finish(sim, sim_name, prop, tier, seed, plan, results, t0)
+    finally:
+        core.close_oracles()
 
 
 def _run_hash_groups(sim, sim_name, prop, tier, seed, plan, workers):
@@ -389,6 +402,8 @@ def replay_inner(path) -> int:
     with open(path) as f:
         data = json.load(f)
     sim = get_sim(data["sim"])
+    if hasattr(sim, "pristine_handler"):
+        core.start_oracle(data["sim"], sim.pristine_handler)
     if data.get("mode") == "batch":
         out = run_batch(data["sim"], data["property"], data["tier"], data["seed"], data["stratum"],
                         data["batch_indices"], hash_seed=str(data.get("hash_seed", "0")),
